@@ -64,7 +64,7 @@ StaticCat == [
   TrGlob    |-> GlobEvents,
   TrBad1    |-> <<Ev("modexec", "c14s_bad1"), Ev("opset", "Opset|this|1"), Ev("translate", "bad1"),
                   Ev("translate_raise", "bad1"), Ev("raise", "ValueError")>>,
-  TrBad2    |-> <<Ev("modexec", "c14s_bad2"), Ev("opset", "Opset|c14.other|3"), Ev("translate", "bad2"),
+  TrBad2    |-> <<Ev("modexec", "c14s_bad2"), Ev("opset", "Opset|c14.custom|3"), Ev("translate", "bad2"),
                   Ev("translate_raise", "bad2"), Ev("raise", "TranslationError")>>,
   ProtoGlob |-> Cond(GlobEvents, "undecorated") \o <<Ev("toproto", "glob"), Ev("toproto", "glob"), Ev("toproto", "glob")>>,
   MutGlob   |-> Cond(GlobEvents, "undecorated") \o <<Ev("mutate", "glob")>>,
@@ -89,6 +89,7 @@ StaticCat == [
   RwRewriteRaise |-> <<Chk("ReshapeReshape", "ok", RR), Rew("ReshapeReshape", "ok", RR),
                        Chk("PoisonRewrite", "ok", <<"_seen">>), Rew("PoisonRewrite", "raise", <<"_seen">>), Ev("raise", "PassError")>>,
   FoldA     |-> <<Ev("fold_reset", ""), Ev("fold_done", "")>>,
+  FoldNoop  |-> <<Ev("fold_reset", ""), Ev("fold_done", "")>>,
   FoldRaise |-> <<Ev("fold_reset", ""), Ev("fold_raise", ""), Ev("raise", "RuntimeError")>>,
   PatOk     |-> <<Ev("pb_enter", ""), Ev("pb_use", ""), Ev("pb_exit", "")>>,
   PatFree   |-> <<Ev("pb_use", "")>>,
@@ -279,6 +280,6 @@ NoDevs == {}
 RealDevs == {"builder_leak", "realized_sticky", "global_array_aliased"}
 SeedDevs == {"set_order_leaks"}
 AllOps == DOMAIN StaticCat
-QuickOps == {"TrGlob", "TrBad1", "ProtoGlob", "MutGlob", "OptA", "RwY", "RwCheckRaise", "FoldA", "FoldRaise",
+QuickOps == {"TrGlob", "TrBad1", "ProtoGlob", "MutGlob", "OptA", "RwY", "RwCheckRaise", "FoldA", "FoldNoop", "FoldRaise",
              "PatFree", "PatRaiseCustom", "PmMatch", "ModBuild", "EvRaise"}
 =============================================================================
